@@ -254,6 +254,12 @@ void checkBatch(const std::vector<std::string>& paths, const VerInfo& v, Slot sl
 			if (loadNif(l, bytes, terrain == 1) != 0) { R_viol("load", "load", "saved path model does not load"); return; }
 			auto out = readBack(l, slot, paths2.size());
 			judge(paths2, out, ob, terrain == 1, slot, "Load", v.n);
+			// the same file through Load(file name, options)
+			NifFile l2;
+			R_phase("load-by-name");
+			if (loadNifByName(l2, bytes, terrain == 1) != 0) { R_viol("load", "load-by-name", "saved path model does not load by file name"); return; }
+			auto out2 = readBack(l2, slot, paths2.size());
+			judge(paths2, out2, ob, terrain == 1, slot, "Load(file name)", v.n);
 		}
 	}
 }
